@@ -87,7 +87,9 @@ def key_fragid(repo, tier="quick"):
                 v = fl.canon(n.ast.value, n.id)
                 stores.append((n, is_new_fine_node(k) and is_coarse_list(v) and cfg.dominates(mnode, n.id)))
         inits = [d for d in fl.reaching(varg.id, nid) if d.kind == "assign"]
-        fresh = len(inits) == 1 and fl.canon(inits[0].value, inits[0].node) == ("dict", ()) and not enclosing_loops(fi, inits[0].node)
+        iv = fl.canon(inits[0].value, inits[0].node) if len(inits) == 1 else None
+        fresh = iv is not None and (iv == ("dict", ()) or (iv[0] == "call" and iv[2] == ("builtin", "dict") and not iv[3] and not iv[4])) and \
+            not enclosing_loops(fi, inits[0].node)
         after_loop = cfg.must_pass(outer.id, {cfg.exit}, {nid}, lambda s, d, l: not (s == outer.id and l == "iter") and l != "exc")
         if stores and all(ok for _, ok in stores) and fresh and after_loop:
             variant_a = ("after", cfg.nodes[nid])
